@@ -337,6 +337,11 @@ def r5(ctx):
     evc = [c for c in cb.calls() if isinstance(c.func, ast.Attribute) and c.func.attr == "evaluate_for_platform"]
     ctx.require(len(evc) == 1, "visitor: evaluate_for_platform call not found")
     fn_kw = next((k.value for k in evc[0].keywords if k.arg == "filename"), None)
+    if isinstance(fn_kw, ast.Name):
+        # a local of the enclosing function that names the canonical path (bound once to the memoised realpath call)
+        from ..decision import _enclosing_bindings
+
+        fn_kw = _enclosing_bindings(cb).get(fn_kw.id, fn_kw)
     writer_canon = wkey == "kwargs['filename']" and fn_kw is not None and _is_canon(u(fn_kw))
     ctx.note(f"writer key {wkey} <- filename={u(fn_kw) if fn_kw is not None else None}")
     # reader
